@@ -30,7 +30,7 @@ PROPS_OF = {
     "lerax/algorithm/base_algorithm.py": ["C10", "C11", "C12"], "lerax/policy/actor_critic/mlp.py": ["C04", "C16"], "lerax/utils.py": ["C04", "C18", "C19"], "lerax/callback/logging/callback.py": ["C19", "C11"], "lerax/benchmark/__init__.py": ["C19"],
     "lerax/wrapper/transform_action.py": ["C13", "C01", "C02"], "lerax/wrapper/transform_observation.py": ["C13", "C01", "C02"], "lerax/wrapper/transform_reward.py": ["C13", "C01", "C02"],
     "lerax/wrapper/misc.py": ["C13", "C01", "C02"], "lerax/wrapper/utils.py": ["C13", "C01", "C02"], "lerax/wrapper/base_wrapper.py": ["C13", "C01", "C02"],
-    "lerax/compatibility/gym.py": ["C13", "C14", "C01"], "lerax/compatibility/gymnax.py": ["C13"], "lerax/env/base_env.py": ["C01", "C13"],
+    "lerax/compatibility/gym.py": ["C13", "C14", "C01", "C11"], "lerax/compatibility/gymnax.py": ["C13"], "lerax/env/base_env.py": ["C01", "C13"],
     "lerax/space/box.py": ["C14"], "lerax/space/discrete.py": ["C14"], "lerax/space/multi_binary.py": ["C14"], "lerax/space/multi_discrete.py": ["C14"],
     "lerax/space/dict.py": ["C14", "C12"], "lerax/space/tuple.py": ["C14"],
     "lerax/distribution/base_distribution.py": ["C15"], "lerax/distribution/categorical.py": ["C15", "C16"], "lerax/distribution/bernoulli.py": ["C15", "C16"],
